@@ -21,6 +21,7 @@ type chooser struct {
 	timed  bool // windows of a few ticks and T steps
 	wild   int  // 0 = always possible steps; n>0: one step in n is not checked for possibility
 	bad    bool // loads that fail in Provision may occur
+	ph     bool // every dial address is a request placeholder
 	areal  bool // a configuration whose active checks the schedule drives was loaded
 	bg     bool // a configuration with free-running background checks was loaded
 	dyn    bool // a configuration with a dynamic source was loaded
@@ -101,7 +102,7 @@ func (c *chooser) loadStep(K int) string {
 		c.lat = true
 		return text + fmt.Sprintf(":%d:1", r.Intn(3)) // unhealthy_latency configured
 	}
-	if !c.bg && r.Chance(1, 5) {
+	if !c.ph && !c.bg && r.Chance(1, 5) {
 		// active health checks the schedule drives (H / K steps): distinct addresses
 		n := 1 + r.Intn(K)
 		start := r.Intn(K)
@@ -115,7 +116,7 @@ func (c *chooser) loadStep(K int) string {
 	if r.Chance(1, 6) {
 		return text + fmt.Sprintf(":%d:8", r.Intn(3)) // stream_close_delay not set
 	}
-	if !c.areal && r.Chance(1, 12) {
+	if !c.ph && !c.areal && r.Chance(1, 12) {
 		c.bg = true
 		return text + fmt.Sprintf(":%d:2", r.Intn(3)) // active health checks run in the background
 	}
@@ -169,6 +170,9 @@ func (c *chooser) next(k *kase) (step, bool) {
 			case x < 30:
 				if live && len(parked) < 5 {
 					text = "N:" + r.Pick([]string{"G", "G", "G", "P", "P", "W"})
+					if c.ph && r.Chance(1, 3) {
+						text = fmt.Sprintf("N:%s:%d:%d", r.Pick([]string{"G", "P"}), r.Intn(k.K), 1+r.Intn(3))
+					}
 				}
 			case x < 58:
 				if len(parked) > 0 {
@@ -335,8 +339,14 @@ func (p *prop) Generate(rng *core.Rand, tier string, emit func(string)) {
 					c.max = 4 + r.Intn(14)
 				}
 				cf := r.Chance(1, 3)
-				out, steps := p.execSched(K, c, 0, cf)
-				results[j.idx] = genCase{line: schedLine(K, steps, cf), out: out}
+				ph := !cf && !j.timed && r.Chance(1, 7)
+				c.ph = ph
+				out, steps := p.execSched(K, c, 0, cf, ph)
+				line := schedLine(K, steps, cf)
+				if ph {
+					line = "schedph" + line[len("sched"):]
+				}
+				results[j.idx] = genCase{line: line, out: out}
 			}
 		}()
 	}
